@@ -14,7 +14,7 @@ META = {
                  "writes, then a later run) + the operation list extracted from the real langlint binary with strace "
                  "and the real process killed on entry to every file-system call, compared with the model's prefix states",
     "text": "Theorems C36_crash_safe (for every crash point between or inside the operations of the repaired "
-            "rewriteFile - temp create, write, close, chmod, one rename over the target - the target path holds the "
+            "rewriteFile - unlink leftover temp, create temp, write, close, chmod, one rename over the target - the target path holds the "
             "complete original or the complete new content, assuming only that rename/create/unlink are atomic and a "
             "torn write appends a prefix), C36_prefix_safe (the same for every prefix of the op list), C36_no_litter "
             "(a complete run changes the target and no other directory entry) and C36_later_run_clean (after a kill "
@@ -36,6 +36,8 @@ META = {
 TRACE_SET = "%file,write,pwrite64,writev,close,fchmod,ftruncate,fsync,fdatasync"
 BYSTANDER = "other.txt"
 NNAMES = 8
+UNPRIV = ["setpriv", "--reuid=65534", "--regid=65534", "--clear-groups"]
+MODES = [0o644, 0o600, 0o664, 0o444, 0o400, 0o755]
 
 
 # ----------------------------------------------------------------------------- generators
@@ -114,7 +116,8 @@ def parse_trace(path):
             continue
         ret = None if m.group(4) == "?" else int(m.group(4))
         res.append({"pid": m.group(1), "name": m.group(2), "args": m.group(3),
-                    "strs": [unhex(s) for s in STR_RE.findall(m.group(3))], "ret": ret, "raw": slot["raw"][:300]})
+                    "strs": [unhex(s) for s in STR_RE.findall(m.group(3))], "ret": ret, "err": m.group(5),
+                    "raw": slot["raw"][:300]})
     return res
 
 
@@ -169,7 +172,8 @@ def relevant_ops(trace, dirpath):
                 elif ok:
                     op = ("Unmodelled", "rename across the directory boundary")
             elif nm in ("unlink", "unlinkat", "rmdir"):
-                if ok:
+                # removing an absent name: the model's Remove is a no-op too (os.Remove's second attempt, rmdir, is not an op)
+                if ok or ("ENOENT" in t.get("err", "") and "AT_REMOVEDIR" not in t["args"] and nm != "rmdir"):
                     op = ("Remove", paths[0][len(d):])
             elif nm in ("chmod", "fchmodat", "fchmodat2"):
                 if ok:
@@ -224,6 +228,10 @@ def v_listing(names, lst):
 
 def v_ops(names, ops):
     out = []
+    for op in ops:                       # the temp role goes to the first name created, even if it is unlinked before
+        if op[0] == "Create":
+            names.created(op[1])
+            break
     for op in ops:
         if op[0] == "Create":
             out.append("Create %d" % names.created(op[1]))
@@ -259,7 +267,7 @@ def strace_run(binp, target, trace_file, inject=None):
     return rc, out
 
 
-def run_case(ck, binp, ci, fname, old, mode, only_kill=None):
+def run_case(ck, binp, ci, fname, old, mode, only_kill=None, unpriv=False):
     """Returns dict with baseline ops, per-crash-point observations; records property violations."""
     base = os.path.join(ck.work, "case%d" % ci)
     d = os.path.join(base, "d")
@@ -270,7 +278,7 @@ def run_case(ck, binp, ci, fname, old, mode, only_kill=None):
     rc, out = strace_run(binp, target, tr)
     trace = parse_trace(tr)
     after = listing(d)
-    res = {"ok": False, "fname": fname, "old": old, "before": before, "after": after, "points": []}
+    res = {"ok": False, "fname": fname, "old": old, "mode": mode, "before": before, "after": after, "points": []}
     if rc != 0 or not trace:
         ck.violation("clean-run-fails", "langlint failed on a valid message file (rc=%s): %s" % (rc, out[-300:]), replay=rep0)
         return res
@@ -327,8 +335,15 @@ def run_case(ck, binp, ci, fname, old, mode, only_kill=None):
                 r["name"], nops, [o[0] for o in res["ops"][:nops]], fname,
                 "NO FILE" if got is None else "neither the original nor the formatted content (%d bytes)" % len(got)),
                 replay=rep)
-        # ---- a later run on what the crash left
-        rc2, out2 = vf.sh([binp, target], timeout=60)
+        # ---- a later run on what the crash left; for write-protected targets as an unprivileged user when possible
+        # (root may open a read-only leftover for writing, an ordinary user may not)
+        later_cmd = [binp, target]
+        if unpriv and not (mode & 0o200):
+            for root_, dirs_, files_ in os.walk(d):
+                for n_ in [root_] + [os.path.join(root_, x) for x in files_]:
+                    os.chown(n_, 65534, 65534)
+            later_cmd = UNPRIV + later_cmd
+        rc2, out2 = vf.sh(later_cmd, timeout=60)
         later = listing(d)
         if got is not None:
             if rc2 != 0:
@@ -351,7 +366,7 @@ def run_case(ck, binp, ci, fname, old, mode, only_kill=None):
 def run(ck):
     quick = ck.tier == "quick"
     ck.cov["rule"] = ("strace route: generated valid message files that langlint changes (1-4 sections, 2-6 descending keys, "
-                      "comments, blank lines, CRLF 15%), file names with/without spaces, modes 0644/0600/0664; every "
+                      "comments, blank lines, CRLF 15%), file names with/without spaces, target modes 0644/0600/0664/0755 and write-protected 0444/0400 (at least one writable, one owner-only and two read-only targets in every run); every "
                       "file-system call of the rewrite is a crash point (process killed on entry). harness route: "
                       "rewriteFile on arbitrary byte contents (empty, binary, > 100 KB) and lintFile on generated files. "
                       "distinct_nontrivial = distinct (file content, crash point) pairs actually killed at, with the "
@@ -384,11 +399,15 @@ def run(ck):
         return
 
     # ---- strace cases
-    ncase = 5 if quick else 40
-    cases = [("messages_xx.txt", b"[b]\nz=one\na=two\n", 0o644)]          # the pinned test's file first
+    ncase = 6 if quick else 40
+    # the pinned test's file first; then the same file write-protected (a rewrite may treat such targets differently);
+    # every tier enumerates all crash points for writable, owner-only and read-only targets
+    cases = [("messages_xx.txt", b"[b]\nz=one\na=two\n", 0o644), ("messages_xx.txt", b"[b]\nz=one\na=two\n", 0o444)]
     fnames = ["messages_en.txt", "messages fr.txt", "m.txt", "messages_x.y.txt"]
+    forced = [0o600, 0o400]
     while len(cases) < ncase:
-        cases.append((ck.rng.choice(fnames), gen_message_file(ck.rng), ck.rng.choice([0o644, 0o600, 0o664])))
+        mode = forced.pop(0) if forced else ck.rng.choice(MODES)
+        cases.append((ck.rng.choice(fnames), gen_message_file(ck.rng), mode))
     only_kill = None
     if ck.replay_file:
         rp = json.load(open(ck.replay_file))["replay"]
@@ -396,14 +415,21 @@ def run(ck):
             cases = [(rp["file_name"], bytes.fromhex(rp["old_hex"]), int(rp.get("mode", "0o644"), 8))]
             if "kill_at" in rp:
                 only_kill = rp["kill_at"]["relevant_call_index"]
+    # can the later run be made as an ordinary user? (root + setpriv + the binary reachable for that user)
+    unpriv = False
+    if os.geteuid() == 0 and shutil.which("setpriv"):
+        os.chmod(binp, 0o755)
+        rcu, _ = vf.sh(UNPRIV + [binp, "-h"], timeout=30)
+        unpriv = rcu == 0
+    ck.cov.setdefault("input_distribution", {})
     results = []
     for ci, (fname, old, mode) in enumerate(cases):
-        results.append(run_case(ck, binp, ci, fname, old, mode, only_kill))
+        results.append(run_case(ck, binp, ci, fname, old, mode, only_kill, unpriv))
     npoints = sum(len(r["points"]) for r in results)
     nontriv = set()
     for r in results:
         for p in r["points"]:
-            nontriv.add((r["old"], p["j"]))
+            nontriv.add((r["old"], r["mode"], p["j"]))
     if npoints == 0 and not ck.viol:
         ck.violation("no-crash-point", "no crash point of the rewrite could be exercised (see notes)", replay={"notes": ck.notes},
                      found_input=False)
@@ -421,7 +447,7 @@ def run(ck):
             new = b""
         elif i == 4:
             new = bytes(range(256))
-        hcases.append((kind, i, ck.rng.choice([0o644, 0o600, 0o640]), ck.rng.choice(fnames), old, new))
+        hcases.append((kind, i, ck.rng.choice([0o644, 0o600, 0o640, 0o444, 0o400]), ck.rng.choice(fnames), old, new))
     if ck.replay_file and only_kill is not None:
         hcases = []
     inp, outp = os.path.join(ck.work, "h.in"), os.path.join(ck.work, "h.out")
@@ -470,7 +496,10 @@ def run(ck):
                                     "harness_rewriteFile": sum(1 for h in hcases if h[0] == "R"),
                                     "harness_lintFile": sum(1 for h in hcases if h[0] == "L"),
                                     "harness_new_over_100KB": sum(1 for h in hcases if len(h[5]) > 100000),
-                                    "crlf_files": sum(1 for c in cases if b"\r\n" in c[1])}
+                                    "crlf_files": sum(1 for c in cases if b"\r\n" in c[1]),
+                                    "strace_case_modes": sorted({oct(c[2]) for c in cases}),
+                                    "read_only_targets": sum(1 for c in cases if not c[2] & 0o200),
+                                    "later_run_of_read_only_targets_unprivileged": unpriv}
     for r in results[:2]:
         if r.get("ok"):
             ck.sample({"file": r["fname"], "observed_ops": [o[0] + " " + "/".join(
@@ -536,10 +565,11 @@ Definition hf (i : nat) (c : list (name * content) * content * list (name * cont
                      "violated the property in this run" % (o[1],), replay={"file_name": good[i]["fname"],
                      "old_hex": good[i]["old"].hex()}, found_input=False)
     for i in resc["PR"][:1]:
-        ck.violation("corr-oplist", "operation list of the real rewrite %s differs from the model's ops_fixed "
-                     "[Create tmp; Write tmp new; Close tmp; Chmod tmp; Rename tmp path] (theorems C36_* are about the latter); "
-                     "no crash point violated the property in this run" % ([o[0] for o in good[i]["ops"]],),
-                     replay={"file_name": good[i]["fname"], "old_hex": good[i]["old"].hex()}, found_input=False)
+        ck.violation("corr-oplist", "operation list of the real rewrite %s (target mode %o) differs from the model's ops_fixed "
+                     "[Remove tmp; Create tmp; Write tmp new; Close tmp; Chmod tmp; Rename tmp path] (theorems C36_* are about the latter); "
+                     "no crash point violated the property in this run" % ([o[0] for o in good[i]["ops"]], good[i]["mode"]),
+                     replay={"file_name": good[i]["fname"], "old_hex": good[i]["old"].hex(), "mode": oct(good[i]["mode"])},
+                     found_input=False)
     for code in resc["ST"][:1]:
         i, k = divmod(code, 100)
         ck.violation("corr-state", "directory after a kill with %d operations completed differs from the model's prefix state" % k,
